@@ -20,34 +20,34 @@ package receiver
 //@ func (r *Receiver) Next
 //@   requires lock_free_on_entry: !held(r.mu)
 //@   lockcheck
-//@   modifies *
+//@   modifies heap
 //@ func (r *Receiver) HasSnapshots
 //@   requires lock_free_on_entry: !held(r.mu)
 //@   lockcheck
-//@   modifies *
+//@   modifies heap
 //@ func (r *Receiver) SeenInstances
 //@   requires lock_free_on_entry: !held(r.mu)
 //@   lockcheck
-//@   modifies *
+//@   modifies heap
 // RunOnce is called from Receiver.Run's loop and from the sync loop, neither
 // of which holds a mutex.
 //@ func (r *Receiver) RunOnce
 //@   requires lock_free_on_entry: !held(r.mu)
 //@   goroutine
 //@   lockcheck
-//@   modifies *
+//@   modifies heap
 //@ func (r *Receiver) getDownloader
 //@   requires lock_free_on_entry: !held(r.mu)
 //@   lockcheck
-//@   modifies *
+//@   modifies heap
 //@ func (r *Receiver) getDownloader$1
 //@   goroutine
 //@   lockcheck
-//@   modifies *
+//@   modifies heap
 //@ func (d *Downloader) Run
 //@   requires lock_free_on_entry: !held(d.r.mu)
 //@   lockcheck
-//@   modifies *
+//@   modifies heap
 //@   loop 0 invariant lock_free: !held(d.r.mu)
 //@   loop 1 invariant lock_free: !held(d.r.mu)
 
